@@ -14,7 +14,9 @@
 (* The abstract output of the specification is bound to the logged digest:  *)
 (* equal abstract outputs must have equal digests (Reproducible), abstract  *)
 (* outputs that differ in the seed only must have different digests         *)
-(* (SeedSensitive; only for configurations with continuous output), and the *)
+(* (SeedSensitive; only for configurations with continuous output and only *)
+(* in sessions where the recorder established -- from the SPECIFICATION's   *)
+(* right-hand side -- that the output depends on the drawn values), and the  *)
 (* global state after an event is a function of <<seed, hist>>.             *)
 (***************************************************************************)
 EXTENDS Rng, Json, IOUtils, FiniteSetsExt
@@ -55,7 +57,7 @@ TrRun ==
     /\ Ev.mean \in {"ok", "na"}
     /\ LET o == OutOf(Ev.c) IN
        /\ Bound(bind, o, Ev.dig)                              \* Reproducible
-       /\ (Continuous(Ev.c) =>
+       /\ ((Continuous(Ev.c) /\ Ev.cont) =>
              \A o2 \in DOMAIN bind : SeedOnlyDiffers(o, o2) => bind[o2] # Ev.dig)    \* SeedSensitive
        /\ bind' = Bind(bind, o, Ev.dig)
     /\ Bound(bindSt, <<seed', hist'>>, Ev.st)
